@@ -12,6 +12,9 @@
 (*                into the remaining time plus the increments              *)
 (*   ClockLasts   rem >= 0 after every one of the announced moves-to-go    *)
 (*                (or 15 moves when none is announced).                    *)
+(*   AllottedFits what the search may actually take for a move - budget    *)
+(*                plus the extra time it grants itself (first move out of  *)
+(*                the book) - is within the clock as well (TExt).          *)
 (*                                                                         *)
 (* Configuration "grid": TLC enumerates the parameter grid and prints it;  *)
 (* the driver plays each game with the engine's real budget function.      *)
@@ -82,7 +85,16 @@ TMove == /\ l <= Len(Trace) /\ Ev.ev = "move"
          /\ UNCHANGED game
          /\ l' = l + 1
 
-TraceNext == TStart \/ TMove
+\* what the search is ALLOWED to take for the move about to be played (time limit plus the extra time the search grants itself -
+\* the first search after a book move doubles its budget): it is never more than what is on the clock, and never less than
+\* nothing.  The clock is not moved by this step; the move itself follows.
+TExt == /\ l <= Len(Trace) /\ Ev.ev = "ext"
+        /\ Ev.rem = rem
+        /\ bad' = (Ev.b > rem \/ Ev.b < 0)
+        /\ UNCHANGED <<rem, inc, left, game>>
+        /\ l' = l + 1
+
+TraceNext == TStart \/ TMove \/ TExt
 
 \* every bad step is printed with its line number (all of them, not only the first)
 BadObs == ~bad \/ PrintT(<<"BADSTEP", l - 1>>)
